@@ -27,7 +27,8 @@ DayClauses(i) ==
       lastDay == e.j = JDN_9999_12_31
       firstDay == e.j = JDN_0001_01_01
   IN
-  [ converts  |-> e.ok = 1,
+  [ civil     |-> Valid(e.y, e.m, e.d) /\ e.j = JDN(e.y, e.m, e.d),
+    converts  |-> e.ok = 1,
     lunardate |-> e.ok = 1 => LunarDateOk(e),
     roundtrip |-> e.ok = 1 => e.lb = e.j,
     fresh     |-> e.ok = 1 => e.lf = e.j,
